@@ -39,6 +39,95 @@ def name_scripts(max_len):
                    b'n13 COPY 1 ' + lit(enc + b'-missing') + b'\r\n']
 
 
+RAW_NAMES = [b'&2AA-', b'&3AA-', b'&2ADYAA-', b'a&2AA-b', b'&AAo-', b'&AA0ACg-',
+             b'&AAA-', b'&ACI-', b'&AFw-', b'&AH8-', b'&ACIAXA-', b'&2D3eAA-',
+             b'&3gDYPQ-', b'&AOkA6Q-', b'&,,8-', b'&AAoACg-']
+
+
+def raw_name_scripts():
+    """Mailbox names given in their wire encoding: encodings of lone
+    surrogates, control characters, quote and backslash."""
+    for enc in RAW_NAMES:
+        L = lit(enc)
+        yield [b'n1 CREATE ' + L + b'\r\n', b'n2 SUBSCRIBE ' + L + b'\r\n',
+               b'n3 LIST "" *\r\n', b'n4 LSUB "" *\r\n',
+               b'n5 STATUS ' + L + b' (MESSAGES UIDNEXT)\r\n',
+               b'n6 SELECT ' + L + b'\r\n',
+               b'n8 RENAME ' + L + b' ' + lit(enc + b'x') + b'\r\n',
+               b'n9 LIST "" %\r\n', b'n10 LIST "" ' + L + b'\r\n']
+
+
+# boundary INTERNALDATEs: first/last representable instants with offsets
+# pointing both ways, and years that need zero padding
+DATES = [b'01-Jan-0001 00:00:00 +0000', b'01-Jan-0001 00:00:00 +0100',
+         b'01-Jan-0001 00:00:00 -0100', b'01-Jan-0001 12:00:00 +1400',
+         b'31-Dec-9999 23:59:59 +0000', b'31-Dec-9999 23:59:59 -0100',
+         b'31-Dec-9999 23:59:59 +0100', b'31-Dec-9999 12:00:00 -1200',
+         b'01-Jan-0099 00:00:00 +0000', b'01-Jan-0999 00:00:00 +0000',
+         b'01-Jan-1000 00:00:00 +0000', b' 1-Jan-2020 00:00:00 +0000',
+         b'29-Feb-2000 23:59:60 +0000', b'01-Jan-1970 00:00:00 +0000',
+         b'01-Jan-1969 23:59:59 -0000', b'19-Jan-2038 03:14:08 +0000']
+
+
+def date_scripts():
+    for d in DATES:
+        yield [b'd1 APPEND INBOX "' + d + b'" ' + lit(b'A: b\r\n\r\nx')
+               + b'\r\n', b'd2 FETCH * (INTERNALDATE)\r\n',
+               b'd3 FETCH * FAST\r\n', b'd4 UID FETCH 1:* ALL\r\n',
+               b'd5 SEARCH ON 1-Jan-0001 BEFORE 31-Dec-9999\r\n',
+               b'd6 SEARCH SINCE 1-Jan-0001\r\n']
+
+
+CTE_BODIES = [
+    (b'base64', b'@@@@not-b64\r\n'), (b'base64', b'QUJD\r\n'),
+    (b'base64', b'QUJ\r\n'), (b'base64', b'====\r\n'), (b'base64', b''),
+    (b'BASE64', b'QUJD'), (b'quoted-printable', b'a=ZZb=\r\n'),
+    (b'quoted-printable', b'=\r\n='), (b'quoted-printable', b'caf=E9\r\n'),
+    (b'7bit', b'\xff\xfe\r\n'), (b'8bit', b'\x00\r\n'), (b'binary', b'\x00\xff'),
+    (b'x-uuencode', b'begin 644 x\r\n'), (b'', b'x'), (b'base64 ', b'QUJD'),
+    (b'"base64"', b'QUJD'), (b'base64; x=y', b'QUJD'),
+]
+
+
+def cte_scripts():
+    """Content-Transfer-Encoding values x bodies that do not decode, read
+    back through the BINARY items (decoded on the fly while the response is
+    written)."""
+    for cte, body in CTE_BODIES:
+        for ctype in (b'text/plain', b'application/octet-stream'):
+            m = (b'Content-Type: ' + ctype + b'\r\nContent-Transfer-Encoding: '
+                 + cte + b'\r\n\r\n' + body)
+            yield [b'c1 APPEND INBOX ' + lit(m) + b'\r\n',
+                   b'c2 FETCH * (BINARY.PEEK[] BINARY.SIZE[])\r\n',
+                   b'c3 FETCH * (BINARY[1] BINARY.SIZE[1])\r\n',
+                   b'c4 FETCH * (BINARY[]<0.2> BODYSTRUCTURE)\r\n']
+            mp_ = (b'Content-Type: multipart/mixed; boundary=B\r\n\r\n--B\r\n'
+                   + m + b'\r\n--B--\r\n')
+            yield [b'c1 APPEND INBOX ' + lit(mp_) + b'\r\n',
+                   b'c2 FETCH * (BINARY[1] BINARY.SIZE[1])\r\n',
+                   b'c3 FETCH * (BINARY.PEEK[] BODYSTRUCTURE)\r\n']
+
+
+FIELD_NAME_TAILS = ['', '\n', '\r', ' ', ':', '"', '\\', '\0', '\xe9', '(',
+                    ')', '{', '\r\n', '\n\n', '\t']
+
+
+def field_name_scripts():
+    msg = b'Subject: s\r\nFrom: a@b\r\n\r\nbody\r\n'
+    for a in FIELD_NAME_TAILS:
+        for b_ in FIELD_NAME_TAILS:
+            for name in {a + 'Subject' + b_, 'Sub' + a + b_ + 'ject'}:
+                n = name.encode('latin1')
+                if not n:
+                    continue
+                L = lit(n)
+                yield [b'f1 APPEND INBOX ' + lit(msg) + b'\r\n',
+                       b'f2 FETCH * BODY[HEADER.FIELDS (' + L + b')]\r\n',
+                       b'f3 FETCH * BODY.PEEK[HEADER.FIELDS.NOT (From ' + L
+                       + b')]\r\n',
+                       b'f4 SEARCH HEADER ' + L + b' s\r\n']
+
+
 HEADER_FIELDS = [b'Subject', b'From', b'To', b'Cc', b'Bcc', b'Sender',
                  b'Reply-To', b'Message-Id', b'In-Reply-To', b'Date',
                  b'Content-Type', b'Content-Disposition', b'Content-Id',
@@ -139,7 +228,11 @@ def families(tier):
     return [('names', list(name_scripts(2 if tier == 'quick' else 3))),
             ('headers', list(header_scripts())),
             ('shapes', list(shape_scripts(2 if tier == 'quick' else 3))),
-            ('keywords', list(keyword_scripts()))]
+            ('keywords', list(keyword_scripts())),
+            ('raw-names', list(raw_name_scripts())),
+            ('dates', list(date_scripts())),
+            ('field-names', list(field_name_scripts())),
+            ('cte', list(cte_scripts()))]
 
 
 def run(*, tier, seed, jobs, progress, opts):
